@@ -46,6 +46,39 @@ def add_dead(rng, d):
     return d
 
 
+def is_dead(d, ch):
+    if "empty" in ch:
+        return True
+    if "leaf" in ch:
+        return False
+    return all(is_dead(d, c) for c in d["defs"][ch["sub"]]["children"])
+
+
+def reachable_defs(d, k, acc):
+    if k in acc:
+        return acc
+    acc.add(k)
+    for ch in d["defs"][k]["children"]:
+        if "sub" in ch and not is_dead(d, ch):
+            reachable_defs(d, ch["sub"], acc)
+    return acc
+
+
+def check_free_pins(d, built):
+    """after prune(): at every surviving level the solver's free pins are exactly the unconnected ports of the
+    surviving components (a harness-level expectation computed from the description)"""
+    for k in sorted(reachable_defs(d, d["top"], set())):
+        df = d["defs"][k]
+        sol, sts = built[k]
+        used = {tuple(e) for c in df["conns"] for e in c}
+        want = sorted((c, hierlib.port_name(d, ch, q)) for c, ch in enumerate(df["children"]) if not is_dead(d, ch)
+                      for q in range(hierlib.nports(d, ch)) if (c, q) not in used)
+        idx = {id(st): c for c, st in enumerate(sts)}
+        got = sorted((idx[id(st)], pin.name) for st, pin in sol.free_pins)
+        if got != want:
+            raise ValueError("free pins after prune differ at level %d: %s vs %s" % (k, got, want))
+
+
 def shape(sol):
     out = []
     for st in sol.structures:
@@ -88,6 +121,7 @@ class PruneStream(Stream):
         ret = top.prune()
         shp = shape(top)
         try:
+            check_free_pins(d, built)
             mod = top.solve()
             got = sorted(p.name for p in mod.pin_dic)
             if got != sorted(names):
